@@ -41,9 +41,9 @@ theorem decodeLoop_stop (mc : MCfg) (hook : Hook) (f insn : Nat) (st : DState) (
     Call keys are covered for Dicts only (a builtin map cannot hold them). -/
 theorem C03_roundtrip (ip : IsPrint) (hip : ip 10 = false) (c : ECfg) (cfg : Cfg) (v : GoVal)
     (hp0 : 0 ≤ c.proto) (hp5 : c.proto ≤ 5) (hsu : cfg.su = c.su)
-    (hc : canon cfg v = true) (hf : FloatsOK c (floatsOf v)) (he : (encodeTop ip c none v).err = none) (st0 : DState) :
+    (hc : canon cfg true v = true) (hf : FloatsOK c (floatsOf v)) (he : (encodeTop ip c none v).err = none) (st0 : DState) :
     ∃ r st', decode (goCfg cfg) none st0 (flat (encodeTop ip c none v)) = (.ok r, st', []) ∧
-      Rep (goCfg cfg) st'.heap r v := by
+      Rep (goCfg cfg) GoVal.ref st'.heap r v := by
   have hrange : (0 ≤ c.proto ∧ c.proto ≤ 5) := ⟨hp0, hp5⟩
   have hdr_err : (if c.proto ≥ 2 then emit [0x80, UInt8.ofNat c.proto.toNat] else Out.nil).err = none := by
     split <;> rfl
@@ -53,7 +53,7 @@ theorem C03_roundtrip (ip : IsPrint) (hip : ip 10 = false) (c : ECfg) (cfg : Cfg
   rw [etop] at he ⊢
   obtain ⟨h12, _⟩ := seq_err_none he
   obtain ⟨_, hev⟩ := seq_err_none h12
-  obtain ⟨is, hpar, hrun⟩ := rt_val (mc := goCfg cfg) ip hip hsu rfl v hc hf hev
+  obtain ⟨is, hpar, hrun⟩ := rt_val (mc := goCfg cfg) (hook := none) (ρ := GoVal.ref) (rk := true) ip ⟨fun _ => rfl, fun _ => rfl⟩ (fun _ _ => rfl) hip hsu rfl v hc hf hev
   rw [flat_seq _ _ h12, flat_seq _ _ hdr_err, flat_emit]
   unfold decode
   by_cases h2 : c.proto ≥ 2
@@ -109,19 +109,19 @@ namespace Ogorek
 /-- The same from protocol 1 on, where no text form is used: no hypothesis about floats at all. -/
 theorem C03_roundtrip_bin (ip : IsPrint) (hip : ip 10 = false) (c : ECfg) (cfg : Cfg) (v : GoVal)
     (hp1 : 1 ≤ c.proto) (hp5 : c.proto ≤ 5) (hsu : cfg.su = c.su)
-    (hc : canon cfg v = true) (he : (encodeTop ip c none v).err = none) (st0 : DState) :
+    (hc : canon cfg true v = true) (he : (encodeTop ip c none v).err = none) (st0 : DState) :
     ∃ r st', decode (goCfg cfg) none st0 (flat (encodeTop ip c none v)) = (.ok r, st', []) ∧
-      Rep (goCfg cfg) st'.heap r v :=
+      Rep (goCfg cfg) GoVal.ref st'.heap r v :=
   C03_roundtrip ip hip c cfg v (by omega) hp5 hsu hc (fun _ _ => Or.inl hp1) he st0
 
 /-- Non-vacuity: a nested value with a Dict keyed by an int, a tuple holding a big int and a NaN, and a
     string meets the theorem's hypotheses (PyDict on), and so does a builtin map (PyDict off). -/
-example : canon { pyDict := true, su := true }
+example : canon { pyDict := true, su := true } true
     (.list [.dict [(.int 1, .str (sb "a")), (.tuple [.big 7 (2 ^ 70), .float 0x7ff8000000000001], .none), (.bytestr (sb "k"), .list [])],
             .call (sb "mod") (sb "fn") [.bytes [1, 2, 3], .ref (.str (sb "oid"))], .bytearray [0, 255]]) = true := by
   decide
 
-example : canon { pyDict := false, su := false }
+example : canon { pyDict := false, su := false } true
     (.tuple [.map [(.int 1, .str (sb "a")), (.float 0, .none), (.str (sb "k"), .map [])], .big 3 (-5)]) = true := by
   decide
 
